@@ -27,6 +27,8 @@ pub enum M {
     // async (C16)
     Af,
     Ag,
+    /// `fn ai(&self, x) -> impl Future<Output = u64>`: the third spelling of an async method
+    Ai,
     At,
     // generic (C18)
     GenU8,
@@ -133,6 +135,7 @@ pub const ALL_M: &[M] = &[
     M::PinProv,
     M::Af,
     M::Ag,
+    M::Ai,
     M::At,
     M::GenU8,
     M::GenU16,
@@ -203,6 +206,7 @@ impl M {
             M::PinProv => ("ByPin", "pin_prov", false, true, false, Recv::Pin, false),
             M::Af => ("AsyncA", "af", false, false, true, Recv::Ref, true),
             M::Ag => ("AsyncA", "ag", false, false, false, Recv::Ref, true),
+            M::Ai => ("AsyncA", "ai", false, false, false, Recv::Ref, true),
             M::At => ("AsyncT", "at", false, false, true, Recv::Ref, true),
             M::GenU8 => ("Gen", "g", false, false, false, Recv::Ref, false),
             M::GenU16 => ("Gen", "g", false, false, false, Recv::Ref, false),
@@ -496,6 +500,13 @@ pub enum Op {
     UserPanic {
         catch: bool,
     },
+    /// a mock of its own on plain OS threads that come and go (no simulated scheduling involved):
+    /// 0 = built on a thread that exits, dropped on a thread spawned afterwards; 1 = the same with
+    /// verify(); 2 = built by a thread that keeps it in a thread-local and exits (the thread-local's
+    /// destructor drops and thereby verifies it - all expectations met)
+    FreshThreads {
+        kind: u8,
+    },
     /// clone the instance in `slot` `n` times, dropping every clone at once (scale: tens of thousands
     /// of clones over the life of one mock)
     CloneStorm {
@@ -587,6 +598,9 @@ pub enum LendKind {
     CloneOfSelf,
     /// make_ref of a zero-sized value that has a destructor
     MakeRefZ,
+    /// a value lent by a clone that was itself lent by the mock: make_ref(self.clone()), then make_ref
+    /// on that lent clone - a value chain inside a value chain
+    ViaLentClone,
 }
 
 #[derive(Serialize, Deserialize, Clone, Copy, Debug, PartialEq, Eq, Hash)]
